@@ -226,8 +226,8 @@ where
     {
         loop {
             match self.peek()? {
-                next @ (Some(b' ') | Some(b'\n') | Some(b'\t') | Some(b'\r') | Some(b')')
-                | Some(b']') | Some(b'(') | Some(b'[') | Some(b';') | None) => {
+                next @ (Some(b' ') | Some(b'\n') | Some(b'\t') | Some(b'\r') | Some(0x0C)
+                | Some(b')') | Some(b']') | Some(b'(') | Some(b'[') | Some(b';') | None) => {
                     if scratch == b"." {
                         return error(self, lone_dot_error(next));
                     }
@@ -383,8 +383,8 @@ impl<'a> SliceRead<'a> {
 
         loop {
             match self.peek_byte() {
-                next @ (None | Some(b' ') | Some(b'\n') | Some(b'\t') | Some(b'\r') | Some(b')')
-                | Some(b']') | Some(b'(') | Some(b'[') | Some(b';')) => {
+                next @ (None | Some(b' ') | Some(b'\n') | Some(b'\t') | Some(b'\r') | Some(0x0C)
+                | Some(b')') | Some(b']') | Some(b'(') | Some(b'[') | Some(b';')) => {
                     if scratch.is_empty() {
                         // Fast path: return a slice of the raw S-expression without any
                         // copying.
